@@ -1,3 +1,41 @@
-import PGM.Model.Certificate
+import PGM.Proofs.CertSem
+/-!
+# C03 — estimation attains the global optimum over all distributions
+
+What a theorem can carry here is the **a-posteriori certificate**: for the squared-error objective
+`L(p) = Σ_m ½‖A_m p − y_m‖²` (with `A_m = (1/σ_m) Q_m Π_m` on the full table) and *every*
+nonnegative table `q` with the same total, `L(p) − L(q) ≤ fwGap p T` — computable from the returned
+table alone.  The check evaluates it on `model.datavector()` of the real estimator for each solver.
+That MD / RDA / IG drive this gap to zero ("given enough iterations") is the convergence theory of
+Beck–Teboulle, Xiao and Auslender–Teboulle; it is **not** proved here and is decided per generated
+input by this certificate (a test, labelled so in the evidence).  "Never below the optimum" holds
+because every answer is the marginal of one explicit nonnegative table (C01/C02/C08).
+-/
 namespace PGM.C03
+open PGM PGM.Cert
+variable {K : Type} [Field K] [LinearOrder K] [IsStrictOrderedRing K]
+
+/-- **certificate**: for the squared-error objective, any table `p` and *every* nonnegative table
+`q` of the same length with total `T`: `L(p) − L(q) ≤ fwGap p T`.  In particular
+`L(p) ≤ min_q L(q) + fwGap p T`, with no reference to an independent solver. -/
+theorem fw_gap_bound (ms : List (List (List (PlainOf K)) × List (PlainOf K))) (p q : List (PlainOf K))
+    (T : PlainOf K) (hn : 0 < p.length) (hc : Conform ms p.length) (hq : q.length = p.length)
+    (hq0 : ∀ x ∈ q, 0 ≤ x.v) (hqT : (q.map (·.v)).sum = T.v) :
+    (loss ms p).v - (loss ms q).v ≤ (fwGap ms p T).v := by
+  apply Cert.fw_gap_bound <;> assumption
+
+/-- the gap is nonnegative at feasible points (so a reported gap `≤ ε` really brackets the optimum) -/
+theorem fw_gap_nonneg (ms : List (List (List (PlainOf K)) × List (PlainOf K))) (p : List (PlainOf K))
+    (T : PlainOf K) (hn : 0 < p.length) (hc : Conform ms p.length)
+    (hp0 : ∀ x ∈ p, 0 ≤ x.v) (hpT : (p.map (·.v)).sum = T.v) :
+    0 ≤ (fwGap ms p T).v := by
+  apply Cert.fw_gap_nonneg <;> assumption
+
+/-- a table with zero gap is a global minimiser over all nonnegative tables with that total -/
+theorem optimal_of_zero_gap (ms : List (List (List (PlainOf K)) × List (PlainOf K))) (p q : List (PlainOf K))
+    (T : PlainOf K) (hn : 0 < p.length) (hc : Conform ms p.length) (hq : q.length = p.length)
+    (hq0 : ∀ x ∈ q, 0 ≤ x.v) (hqT : (q.map (·.v)).sum = T.v) (hgap : (fwGap ms p T).v = 0) :
+    (loss ms p).v ≤ (loss ms q).v := by
+  apply Cert.optimal_of_zero_gap <;> assumption
+
 end PGM.C03
